@@ -12,7 +12,7 @@ from ..values import (Const, Sym, CRef, FRef, Bound, BoundB, Obj, Tup, App,
 from ..interp import Interp, Hooks
 from ..formulas import signatures, LANGS, FormulaHooks
 from ..templates import extract, generic_instances, show, make_hole
-from ..report import Finding, RuleResult, floor
+from ..report import Finding, RuleResult, floor, Attempts
 from . import c09
 
 PROP = 'C11'
@@ -227,8 +227,9 @@ def _syms(v):
 
 
 def run(prog, tier, seed):
-    r3 = c09.rule_rt4(prog, PROP, 'R-EQ-3')
-    results = [rule_eq1(prog), rule_eq2(prog), r3]
+    T = Attempts()
+    r3 = T(c09.rule_rt4, prog, PROP, 'R-EQ-3')
+    results = T.results(T(rule_eq1, prog), T(rule_eq2, prog), r3)
     expl = ('For every class of the formula lattice the MRO-resolved __eq__ '
             'and __hash__ are interpreted abstractly: both exist (no class '
             'defines __eq__ without __hash__ at or below it), equality is '
@@ -246,4 +247,4 @@ def run(prog, tier, seed):
     assumptions = ['atom names are identifier-style, not reserved words',
                    'str() of a formula is deterministic (no ambient state: '
                    'C07 R-PURE-4)']
-    return results, expl, assumptions, {}
+    return results, expl, assumptions, T.extra()
